@@ -173,3 +173,9 @@ func vfFixedBytes(name string, n int) []byte {
 	}
 	return b
 }
+func vfSpawnedCount() int         { return 0 }
+func vfSpawnedName(i int) string  { return "" }
+func vfRunSpawned(i int)          {}
+func vfRacy(p any)                {}
+func vfHeld(p any) bool           { return false }
+func vfHeldByMe(p any) bool       { return false }
